@@ -337,6 +337,13 @@ def scrub(msg):
     return msg
 
 
+def outcome_detail(o):
+    """what came back for a call, for the report of an outcome the model has no term for"""
+    return json.dumps({"ok": o.get("ok"), "stage": o.get("stage"), "error": o.get("error"),
+                       "server_calls": [(c["path"], len(c["requests"])) for c in o.get("calls") or []],
+                       "result": (o.get("result") or {}).get("kind") if isinstance(o.get("result"), dict) else o.get("result")})[:400]
+
+
 class ApiRun:
     def __init__(self, ctx, tag, req, rindex, yaml, facts, gen_result):
         self.ctx, self.tag, self.req, self.rindex, self.yaml = ctx, tag, req, rindex, yaml
@@ -586,7 +593,7 @@ class ApiRun:
         try:
             out = U.drive(root, vm, calls)
         except Exception as e:  # noqa
-            ctx.oblige(f"T2 {self.tag}: driver ran", False, repr(e)[-800:], "T2")
+            ctx.oblige(f"HARNESS ERROR (driver of {self.tag}, retried once; says nothing about /repo)", False, repr(e)[-800:], "build")
             return
         finally:
             gen.rm(root)
@@ -666,7 +673,7 @@ class ApiRun:
                     expr = f"match dispatch {variant} {sv} {cm} with Some st => String.eqb (st_path st) {coq.s(npath)} | None => false end"
                 self.checks.append((f"T2 {self.tag}.{m.name} {variant} {sp}: path, request count and result = model", expr))
             elif known is None:
-                ctx.oblige(f"T2 {self.tag}.{m.name} {variant} {sp}: outcome is one the model knows", False, json.dumps(o.get("error"))[:300], "T2")
+                ctx.oblige(f"T2 {self.tag}.{m.name} {variant} {sp}: outcome is one the model knows", False, outcome_detail(o), "T2")
             # coercion: model's exec on the opaque request
             if not m.client_streaming and o["ok"] and npath is not None:
                 got = self.dyn.parse("." + m.input_type[1:], o["calls"][0]["requests"][0]) if nreq == 1 else None
@@ -811,7 +818,7 @@ class ApiRun:
             self.checks.append((f"T2 {self.tag}.{mname} {variant}: legacy IAM method fails with KeyError (table has no such entry)",
                                 f"match dispatch {variant} {sv} {cm} with None => true | Some _ => false end"))
         else:
-            ctx.oblige(f"T2 {self.tag}.{mname} {variant}: outcome is one the model knows", False, json.dumps(o.get("error"))[:300], "T2")
+            ctx.oblige(f"T2 {self.tag}.{mname} {variant}: outcome is one the model knows", False, outcome_detail(o), "T2")
         if not o["ok"] or len(o["calls"]) != 1 or o["calls"][0]["path"] != path:
             sig = "stubs.async_legacy_iam_keyerror" if (variant == "Async" and not o["ok"] and o["error"]["exception"] == "KeyError") else None
             ctx.violation(f"{s.name}.{mname} ({variant}, add-iam-methods): "
